@@ -29,12 +29,19 @@ def elem_size(ty):
             "long": 8, "unsigned long": 8, "double": 8, "float": 4, "bool": 1}.get(t, None)
 
 
+# functions whose result is a transformed copy of one argument, of the same length
+PASS_THROUGH = {"StrToUpper": 0, "StrToLower": 0, "StrToConstant": 0, "PrettyTmpName": 0, "PrettyNewName": 0}
+
+
 class FnBuf:
-    def __init__(self, prog, fn, ident_fns, input_fns=None):
+    def __init__(self, prog, fn, ident_fns, input_fns=None, const_globals=None, summaries=None, path_fns=None):
+        self.summaries = summaries or {}
+        self.path_fns = path_fns or set()
         self.prog = prog
         self.fn = fn
         self.ident_fns = ident_fns
         self.input_fns = input_fns or set()
+        self.const_globals = const_globals or {}
         self.ptr_alias = self._find_aliases()
         self.iv = Intervals(fn, tracked=None, extra_eval=self._extra_eval)
         # also track pointer aliases as offsets
@@ -149,13 +156,56 @@ class FnBuf:
                 return iv.eval(s["ch"][1], st)
         if n["k"] == "Call" and n.get("fn") in ("strlen", "__builtin_strlen"):
             a = n["ch"][0] if n.get("ch") else None
+            cb = self._content_bound(a, n)
+            if cb is not None:
+                return (0, cb)
             ml = self.maxlen(a, st)
             if ml[0] != INF:
                 return (0, ml[0])
             return (0, INF)
+        if n["k"] == "Ref" and n.get("dk") == "global" and n["n"] in self.const_globals:
+            v = self.const_globals[n["n"]]
+            return (v, v)
         if n["k"] == "SizeOf" and "val" in n:
             return (n["val"], n["val"])
         return None
+
+    def _content_bound(self, a, at):
+        """strlen(buf) where buf is a fixed array whose only earlier writer in this function is one
+        sprintf/strcpy with a finite expansion: that expansion bounds the content"""
+        arr = self._array_of(a) if a is not None else None
+        if not arr or getattr(self, "_in_cb", False):
+            return None
+        self._in_cb = True
+        try:
+            writers = []
+            for n in self.fn.walk():
+                if n["k"] != "Call" or n is at:
+                    continue
+                short = (n.get("fn") or "").split("::")[-1].replace("__builtin_", "")
+                if short in ("strcpy", "strcat", "sprintf", "strncpy", "strncat", "snprintf", "memcpy", "vsprintf"):
+                    args = call_args(n)
+                    b = self._array_of(args[0]) if args else None
+                    if b and b[0] == arr[0]:
+                        writers.append((short, n, args))
+            if len(writers) != 1:
+                return None
+            short, n, args = writers[0]
+            if not self.fn.cfg.dominates(self.fn.cfg.locate(n), self.fn.cfg.locate(at)):
+                return None
+            st = self.iv.state_at(n) if hasattr(self, "iv") and self.iv.before else State()
+            if short == "sprintf":
+                f = strip(args[1])
+                if f["k"] != "Str":
+                    return None
+                tot, opens, _ = self.fmt_expansion(f.get("s", ""), args[2:], st)
+                return tot if (tot != INF and not opens) else None
+            if short == "strcpy":
+                ml = self.maxlen(args[1], st)
+                return ml[0] if ml[0] != INF else None
+            return None
+        finally:
+            self._in_cb = False
 
     # ---- destinations -------------------------------------------------------------
     def dest(self, n, st):
@@ -214,10 +264,20 @@ class FnBuf:
                 obj = n["ch"][0]
                 r = self.maxlen_string_obj(obj, st, depth + 1)
                 return r
+            sb = self._static_return_bound(n)
+            if short in PASS_THROUGH and len(n.get("ch") or []) > PASS_THROUGH[short]:
+                r = self.maxlen(call_args(n)[PASS_THROUGH[short]], st, depth + 1)
+                if sb is not None and sb < r[0]:
+                    return (sb, "array", "%s() returns a static array" % short)
+                return r
+            if sb is not None:
+                return (sb, "array", "%s() returns a static array" % short)
             if fnm in self.ident_fns or short in self.ident_fns:
                 return (INF, "ident", expr_str(n)[:40])
             if fnm in self.input_fns or short in self.input_fns:
                 return (INF, "input", expr_str(n)[:40])
+            if fnm in self.path_fns or short in self.path_fns:
+                return (4096, "path", expr_str(n)[:40])
             if short in ("strerror",):
                 return (80, "literal", "strerror()")
             return (INF, "unknown", expr_str(n)[:40])
@@ -253,13 +313,41 @@ class FnBuf:
             return self.maxlen(n["ch"][0], st, depth + 1)
         return (INF, "unknown", expr_str(n)[:40])
 
+    def _static_return_bound(self, call):
+        """callee (first-party) returns, on every path, a static/global char array of size N -> N-1"""
+        fk = call.get("fk")
+        if not fk:
+            return None
+        defs = [f for (k, _), f in self.prog.functions.items() if k == fk]
+        if not defs:
+            return None
+        best = None
+        for f in defs:
+            rets = [r for r in f.walk() if r["k"] == "Return" and r.get("ch") and r["ch"][0] is not None]
+            if not rets:
+                return None
+            for r in rets:
+                v = strip(r["ch"][0])
+                if v is None or v["k"] not in ("Ref", "Member"):
+                    return None
+                from ir import array_len as _al
+                N = _al(f.ty(v))
+                if N is None or "char" not in f.ty(v):
+                    return None
+                best = max(best or 0, N - 1)
+        return best
+
     def maxlen_string_obj(self, obj, st, depth):
         o = strip(obj)
         if o is None:
             return (INF, "unknown", "?")
+        if o["k"] == "Ref" and (self.fn.name, o["n"]) in getattr(self, "path_params", ()):
+            return (4096, "path", o["n"])
         if o["k"] == "Call":
             fnm = (o.get("fn") or "")
             short = fnm.split("::")[-1]
+            if fnm in self.path_fns or short in self.path_fns:
+                return (4096, "path", expr_str(o)[:40])
             if fnm in self.ident_fns or short in self.ident_fns:
                 return (INF, "ident", expr_str(o)[:40])
         if o["k"] == "Ref" and o.get("dk") == "local":
@@ -399,6 +487,7 @@ class FnBuf:
         if lhs["k"] == "Subscript":
             b = self.dest(lhs["ch"][0], st)
             if not b:
+                self._param_index_store(stmt, lhs)
                 return
             if st is None:
                 return   # unreachable
@@ -409,6 +498,37 @@ class FnBuf:
             if not b or st is None:
                 return
             self._index_site(stmt, b, b[3], "store %s" % expr_str(lhs)[:50])
+
+    def _param_index_store(self, stmt, lhs):
+        """P[i] = ... with P a char* parameter: part of the function's summary.
+        Idiom: the enclosing loop runs while Q[i] (another parameter, same index) is non-zero -> needs strlen(Q)+1."""
+        base = strip(lhs["ch"][0])
+        if base is None or base["k"] != "Ref" or base.get("dk") != "param":
+            return
+        if not re.match(r"^(unsigned |signed )?char \*$", self.fn.ty(base)):
+            return
+        idx = strip(lhs["ch"][1])
+        pidx = [i for i, p in enumerate(self.fn.params) if p["d"] == base["d"]][0]
+        need = ("unbounded",)
+        if idx is not None and idx["k"] == "Ref":
+            for a in self.fn.ancestors(stmt):
+                if a["k"] in ("While", "For"):
+                    cond = a["ch"][0] if a["k"] == "While" else a["ch"][1]
+                    for x in walk(cond) if cond is not None else []:
+                        if x["k"] == "Subscript":
+                            qb, qi = strip(x["ch"][0]), strip(x["ch"][1])
+                            if qb["k"] == "Ref" and qb.get("dk") == "param" and qi["k"] == "Ref" and qi.get("d") == idx.get("d"):
+                                j = [i for i, p in enumerate(self.fn.params) if p["d"] == qb["d"]][0]
+                                need = ("strlen_param", j, 1)
+                    break
+            else:
+                # terminator store after the loop: same index variable
+                prev = [s for s in self.sites if s.get("kind") == "summary" and s.get("pidx") == pidx]
+                if prev:
+                    need = prev[-1]["need"]
+        self.sites.append({"node": stmt, "kind": "summary", "buf": base["n"], "cap": None, "ok": True, "cls": "summary",
+                           "what": "store %s" % expr_str(lhs)[:40], "detail": "writes through parameter `%s`: %s" % (base["n"], need),
+                           "pidx": pidx, "need": need})
 
     def _index_site(self, node, b, idx, what):
         path, N, ty, _ = b
@@ -450,6 +570,28 @@ class FnBuf:
                 self.sites.append({"node": c, "kind": "lib", "buf": b[0], "cap": b[1], "ok": ok, "cls": "ok" if ok else "unbounded",
                                    "what": "istream::%s" % short, "detail": "count <= %s, capacity %d" % (fmt_b(n[1]), b[1])})
             return
+        if c.get("fk") in self.summaries:
+            for pidx, need in self.summaries[c["fk"]]:
+                if pidx >= len(args):
+                    continue
+                b = self.dest(args[pidx], st)
+                if not b:
+                    continue
+                path, N, ty, off = b
+                room = N - off[1] if off[1] != INF else -INF
+
+                def site2(ok, cls, detail, lstar=None, path=path, N=N):
+                    self.sites.append({"node": c, "kind": "lib", "buf": path, "cap": N, "ok": ok, "cls": cls,
+                                       "what": "call %s" % short, "detail": detail, "lstar": lstar})
+                if need[0] == "const":
+                    ok = need[1] <= room
+                    site2(ok, "ok" if ok else "overflow", "%s writes %d bytes, room %s" % (short, need[1], fmt_b(room)))
+                elif need[0] == "strlen_param" and need[1] < len(args):
+                    ml = self.maxlen(args[need[1]], st)
+                    self._str_site(site2, ml[0] if ml[0] != INF else 0, [(ml[1], ml[2])] if ml[0] == INF else [], room,
+                                   "%s copies %s" % (short, ml[2]))
+                else:
+                    site2(False, "unbounded", "%s writes an unbounded amount through this argument" % short)
         if short not in STR_WRITERS and name not in STR_WRITERS:
             return
         if not args:
@@ -582,24 +724,38 @@ class FnBuf:
         return (fixed + best_cpy, opens)
 
     def _ptr_dest_site(self, c, short, args, st):
-        """destination is a pointer that is not an alias into a fixed array: heap idiom or parameter summary"""
+        """destination is a pointer that is not an alias into a fixed array: heap idiom or parameter summary.
+        Only character-string writers are in scope (typed container growth with mem* is C13's subject)."""
         d = strip(args[0])
         if d is None:
             return
         base = short.replace("__builtin_", "")
+        if base in ("memcpy", "memmove", "memset", "fread"):
+            dty = self.fn.ty(d)
+            if not re.match(r"^(const )?(unsigned |signed )?char \*$", dty):
+                return
         info = {"node": c, "kind": "ptr", "buf": expr_str(d)[:40], "cap": None, "what": base, "lstar": None}
         # parameter destination: part of the function's summary
         root = d
         while root is not None and root["k"] in ("Binary", "Unary", "Subscript", "Cast") and root.get("ch"):
             root = strip(root["ch"][0])
         if root is not None and root["k"] == "Ref" and root.get("dk") == "param":
-            info.update(ok=True, cls="summary", detail="writes through parameter `%s` (obligation moves to the callers)" % root["n"],
-                        param=root["d"])
+            pidx = [i for i, p in enumerate(self.fn.params) if p["d"] == root["d"]][0]
+            need = ("unbounded",)
+            if base in ("strcpy",) and len(args) > 1:
+                a1 = strip(args[1])
+                if a1["k"] == "Ref" and a1.get("dk") == "param":
+                    need = ("strlen_param", [i for i, p in enumerate(self.fn.params) if p["d"] == a1["d"]][0], 1)
+                else:
+                    ml = self.maxlen(args[1], st)
+                    need = ("const", ml[0] + 1) if ml[0] != INF else ("unbounded", ml[1], ml[2])
+            info.update(ok=True, cls="summary", kind="summary", pidx=pidx, need=need,
+                        detail="writes through parameter `%s` (obligation moves to the callers): %s" % (root["n"], need))
             self.sites.append(info)
             return
         # heap block sized from the source in the same function
-        if root is not None and root["k"] in ("Ref", "Member"):
-            size = self._alloc_size(root)
+        if d["k"] in ("Ref", "Member", "Subscript"):
+            size = self._alloc_size(d)
             if size is not None:
                 ok, detail = self._heap_ok(base, args, size, st)
                 info.update(ok=ok, cls="ok" if ok else "unknown", detail=detail)
@@ -616,7 +772,7 @@ class FnBuf:
             rhs = None
             if n["k"] == "Var" and ref["k"] == "Ref" and n.get("d") == ref.get("d") and n.get("ch") and n["ch"][0] is not None:
                 rhs = n["ch"][0]
-            elif n["k"] == "Assign" and access_path(n["ch"][0]) == p:
+            elif n["k"] == "Assign" and p is not None and access_path(n["ch"][0]) == p:
                 rhs = n["ch"][1]
             if rhs is None:
                 continue
@@ -666,6 +822,10 @@ class FnBuf:
             else:
                 lens.append("?" + expr_str(t)[:30])
         if base in ("strcpy",):
+            a1 = strip(args[1])
+            while a1 is not None and a1["k"] == "Call" and (a1.get("fn") or "").split("::")[-1] in PASS_THROUGH:
+                a1 = strip(call_args(a1)[PASS_THROUGH[(a1.get("fn") or "").split("::")[-1]]])
+            args = [args[0], a1] + list(args[2:])
             src = access_path(args[1]) or expr_str(args[1])
             srcs = [src, "len:" + src.replace(".c_str()", "")]
             ok = any(l in srcs for l in lens) and const >= 1
